@@ -27,7 +27,8 @@ import numpy as np
 import warnings
 
 from holopy.scattering.scatterer import Sphere, Spheroid, Cylinder
-from holopy.scattering.errors import TheoryNotCompatibleError, TmatrixFailure
+from holopy.scattering.errors import (TheoryNotCompatibleError, TmatrixFailure,
+                                      InvalidScatterer)
 from holopy.core.errors import DependencyMissing
 from holopy.scattering.theory.scatteringtheory import ScatteringTheory
 try:
@@ -108,6 +109,11 @@ class Tmatrix(ScatteringTheory):
         else:
             raise TheoryNotCompatibleError(self, scatterer)
 
+        if not (0 < rxy < np.inf and 0 < rz < np.inf):
+            # zero, negative, infinite or NaN: the compiled code answers
+            # these by ending the interpreter
+            raise InvalidScatterer(scatterer, "T-matrix needs positive, "
+                                   "finite sizes")
         axi = (3/2)**iscyl*(rz*rxy**2)**(1/3.)
         rat = 1
         lam = med_wavelen
